@@ -23,7 +23,8 @@ Go's aliasing rules are transcribed by hand:
   (`Unmarshal`: a fresh cell) and hung on the transaction's own slot only; moving the cursor to another
   key un-fetches it (`unfetchCurrentValue`), `Find` of the key the cursor is on does not (fast path):
   `cur` is the key the cursor is on together with its fetched cell;
-* `mutate x`: the caller writes through what `read` returned;
+* `mutate x`: the caller writes through what the last `read` returned (it may keep that reference for as long as
+  it likes, also after its transaction ended);
 * `update k v` (`UpdateCurrentItem`): the slot gets a pointer to a fresh cell; the node is dirty;
 * `commit`: a dirty node is marshalled AS IT IS (every in-node cell it references, also cells it merely
   shares with the cache) and `populateMru` clones it into L1; `rollback` just drops the transaction;
@@ -101,7 +102,7 @@ def fetch (s1 : St) (t : Txn) (n : Node) (k : Nat) (kind : Kind) : St × Option 
 
 /-- one step; the output is what a `read` returned (its content) -/
 def St.apply (s : St) : Op → St × Option Nat
-  | .begin => ({ s with txn := some {}, ret := none }, none)
+  | .begin => ({ s with txn := some {} }, none)
   | .read k kind =>
     match s.txn with
     | none => (s, none)
@@ -137,9 +138,9 @@ def St.apply (s : St) : Op → St × Option Nat
       match t.node, t.dirty with
       | some n, true =>
         -- marshal the node as it is; populateMru clones it into L1
-        ({ s with disk := n.filterMap (fun e => (get s.heap e.2).map (fun c => (e.1, c))), l1 := some n, txn := none, ret := none }, none)
-      | _, _ => ({ s with txn := none, ret := none }, none)
-  | .rollback => ({ s with txn := none, ret := none }, none)
+        ({ s with disk := n.filterMap (fun e => (get s.heap e.2).map (fun c => (e.1, c))), l1 := some n, txn := none }, none)
+      | _, _ => ({ s with txn := none }, none)
+  | .rollback => ({ s with txn := none }, none)
   | .clear => ({ s with l1 := none }, none)
 
 def runFrom (s : St) : List Op → St × List (Option Nat)
